@@ -336,6 +336,17 @@ def run(ctx):
             ctx.violation("iter_artifactkit_payloads misses or invents headers in a large file", {"op": "iter_artifactkit_payloads", "failed": "offsets_beyond_2GiB"},
                           {"around": base, "got": str(o[1])[:200], "expected": [w[0] for w in want]})
         ctx.count_distinct(("ak_sparse", base))
+    # an ArtifactKit payload of more than 1 MiB under a 4-byte key: the decoded payload is the position-wise xor
+    for psize in ([1048575 + 9] if ctx.quick else [1048575, 1048576, 1048577 + 8, 4194304 + 3]):
+        keyx = bytes(rng.randrange(1, 256) for _ in range(4))
+        pay = rng.randbytes(psize)
+        enc = (int.from_bytes(pay, "big") ^ int.from_bytes((keyx * (psize // 4 + 1))[:psize], "big")).to_bytes(psize, "big")
+        fbig = b"\xff" * 100 + struct.pack("<II", 116, psize) + keyx + b"HINTHINT" + enc + b"\xff" * 7
+        o = core.guarded(lambda: [(p_.offset, p_.size, bytes(p_.xorkey), bytes(p_.payload) == pay) for p_ in artifact.iter_artifactkit_payloads(io.BytesIO(fbig), start_offset=90, maxrange=130)], seconds=300)
+        ctx.evaluations += 1
+        if o != ("ok", [(100, psize, keyx, True)]):
+            ctx.violation("iter_artifactkit_payloads decodes a large payload wrongly", {"op": "iter_artifactkit_payloads", "failed": "large_payload"}, {"payload_size": psize, "got": str(o)[:200]})
+        ctx.count_distinct(("ak_payload", psize))
     for rep in range(1 if ctx.quick else 6):
         size = 200000 + rep * 4099
         f = bytearray(size)
